@@ -49,6 +49,7 @@ def run(F, rep, tier):
     # evaluated after the calls in between: a nested call alters an operand that was "already evaluated" (eight known findings)
     c01.irp_order(F, rep, T)
     c01.guarded_arms_lower_alike(F, rep, T)
+    c01.instruction_lists_are_only_joined(F, rep)
     # the runtime's higher-order helpers (map, fold, for_each ..) re-enter user code: their own temporaries must not be
     # shared between activations while a callback runs
     import c18
